@@ -111,6 +111,19 @@ ben("B20", ["C17"], "member shuffles use a module-level random.SystemRandom() in
     (P + "selectors.py", "import random\n", "import random\n\n_RNG = None\n\n\ndef _rng():  # noqa: ANN202\n    global _RNG  # noqa: PLW0603\n    if _RNG is None:\n        _RNG = random.SystemRandom()\n    return _RNG\n"),
     (P + "selectors.py", ALL_ + "                random.shuffle(_members)\n", "                _rng().shuffle(_members)\n"),
 ])
+ben("B21", ["C20"], "CLI: the result is written as UTF-8 bytes to the output's underlying binary stream", [
+    (P + "cli.py", "    args.output.write(result)\n", '    args.output.flush()\n    args.output.buffer.write(result.encode("utf-8"))\n    args.output.buffer.flush()\n'),
+])
+ben("B22", ["C20"], "CLI: standard output and error are reconfigured to UTF-8 with backslashreplace at start-up", [
+    (P + "cli.py", "    parser = setup_parser()\n    args = parser.parse_args()\n", '    for stream in (sys.stdout, sys.stderr):\n        if hasattr(stream, "reconfigure"):\n            stream.reconfigure(encoding="utf-8", errors="backslashreplace")\n    parser = setup_parser()\n    args = parser.parse_args()\n'),
+])
+ben("B23", ["C20"], "CLI: -o and -f take plain paths; pathlib reads the document and writes the result", [
+    (P + "cli.py", '        type=argparse.FileType(mode="w"),\n        default=sys.stdout,', '        default=None,'),
+    (P + "cli.py", '        type=argparse.FileType(mode="rb"),\n        default=sys.stdin,', '        default=None,'),
+    (P + "cli.py", "        data = json.load(args.file)\n", '        if args.file is None or args.file == "-":\n            data = json.load(sys.stdin)\n        else:\n            import pathlib\n\n            data = json.loads(pathlib.Path(args.file).read_bytes())\n'),
+    (P + "cli.py", "    except (ValueError, RecursionError) as err:\n        # JSONDecodeError", "    except (ValueError, RecursionError, OSError) as err:\n        # JSONDecodeError"),
+    (P + "cli.py", "    args.output.write(result)\n", '    if args.output is None or args.output == "-":\n        sys.stdout.write(result)\n    else:\n        import pathlib\n\n        pathlib.Path(args.output).write_text(result, encoding="utf-8")\n'),
+])
 
 
 def apply_edits(root: str, edits: List[Edit]) -> None:
